@@ -416,6 +416,11 @@ impl DnsCache {
     pub(crate) fn evict_expired_services(&mut self, now: u64) -> HashMap<String, HashSet<String>> {
         let mut expired_instances = HashMap::new();
 
+        // Instances whose last SRV record expired in this call. An instance can be
+        // pointed to from more than one ty_domain (its type and a subtype of it):
+        // every one of them is told.
+        let mut srv_expired: HashSet<String> = HashSet::new();
+
         // Check all ty_domain in the cache by following all PTR records, regardless
         // if the ty_domain is actively queried or not.
         for (ty_domain, ptr_records) in self.ptr.iter_mut() {
@@ -436,10 +441,16 @@ impl DnsCache {
                                 .entry(ty_domain.to_string())
                                 .or_insert_with(HashSet::new)
                                 .insert(instance_name.to_string());
+                            srv_expired.insert(instance_name.to_string());
 
                             // don't keep empty value for this key.
                             self.srv.remove(instance_name);
                         }
+                    } else if srv_expired.contains(instance_name) {
+                        expired_instances
+                            .entry(ty_domain.to_string())
+                            .or_insert_with(HashSet::new)
+                            .insert(instance_name.to_string());
                     }
 
                     // evict expired TXT records of this instance
